@@ -38,6 +38,31 @@ SPECS = {
                       ("group[START_PRECONDITIONING_STEP]", "start_preconditioning_step", "Z"), ("grafting_config_not_none", "grafting_config_not_none", "bool")]),
         Target(PLIST, "BaseShampooPreconditionerList._get_inverse_roots_from_override_with_high_order_default",
                coq_name="get_inverse_roots_with_default", types={"inv_root_override": "root_override"}),
+        # which in-place tensor statements of the step run, as a function of the hyperparameter tests (the statements are named by their
+        # exact source text, so a change of an operand is a change of the statement)
+        Target(DS, "DistributedShampoo._add_l2_regularization", mode="decision", coq_name="add_l2_regularization_path",
+               atoms=[("weight_decay != 0.0", "weight_decay_nonzero", "bool"), ("use_decoupled_weight_decay", "use_decoupled_weight_decay", "bool")],
+               actions={"torch._foreach_add_(state_lists[MASKED_BLOCKED_GRADS], state_lists[MASKED_BLOCKED_PARAMS], alpha=weight_decay)": 0}),
+        Target(DS, "DistributedShampoo._apply_decoupled_weight_decay", mode="decision", coq_name="apply_decoupled_weight_decay_path",
+               atoms=[("weight_decay != 0.0", "weight_decay_nonzero", "bool"), ("use_decoupled_weight_decay", "use_decoupled_weight_decay", "bool")],
+               actions={"torch._foreach_add_(masked_blocked_search_directions, state_lists[MASKED_BLOCKED_PARAMS], alpha=weight_decay)": 0}),
+        Target(DS, "DistributedShampoo._update_momentum", mode="decision", coq_name="update_momentum_path",
+               atoms=[("momentum_param != 0.0", "momentum_nonzero", "bool"), ("use_nesterov", "use_nesterov", "bool")],
+               actions={"torch._foreach_mul_(state_lists[MASKED_MOMENTUM_LIST], momentum_param)": 0,
+                        "torch._foreach_add_(state_lists[MASKED_MOMENTUM_LIST], masked_blocked_search_directions, alpha=1 - dampening)": 1,
+                        "torch._foreach_mul_(masked_blocked_search_directions, 1 - dampening)": 2,
+                        "torch._foreach_add_(masked_blocked_search_directions, state_lists[MASKED_MOMENTUM_LIST], alpha=momentum_param)": 3,
+                        "torch._foreach_copy_(masked_blocked_search_directions, state_lists[MASKED_MOMENTUM_LIST])": 4}),
+        Target(DS, "DistributedShampoo._compute_filtered_grad_list", mode="decision", coq_name="compute_filtered_grad_list_path",
+               atoms=[("beta1 != 0.0", "beta1_nonzero", "bool"), ("beta3 != beta1", "beta3_ne_beta1", "bool"), ("beta3 == beta1", "beta3_eq_beta1", "bool"),
+                      ("use_bias_correction", "use_bias_correction", "bool")],
+               actions={"masked_filtered_grad_list = torch._foreach_lerp(state_lists[MASKED_FILTERED_GRAD_LIST], state_lists[MASKED_BLOCKED_GRADS], weight=1 - beta3)": 0,
+                        "masked_filtered_grad_list = state_lists[MASKED_FILTERED_GRAD_LIST]": 1,
+                        "torch._foreach_lerp_(state_lists[MASKED_FILTERED_GRAD_LIST], state_lists[MASKED_BLOCKED_GRADS], weight=1 - beta1)": 2,
+                        "bias_correction1 = 1.0 - beta3 * beta1 ** (step - 1)": 3,
+                        "masked_filtered_grad_list = torch._foreach_div(masked_filtered_grad_list, bias_correction1)": 4,
+                        "masked_filtered_grad_list = tuple((filtered_grad.clone() for filtered_grad in masked_filtered_grad_list))": 5,
+                        "masked_filtered_grad_list = state_lists[MASKED_BLOCKED_GRADS]": 6}),
         Target(PLIST, "ShampooPreconditionerList._get_inverse_roots_from_override", coq_name="shampoo_get_inverse_roots", **ROOTS),
         Target(PLIST, "EigenvalueCorrectedShampooPreconditionerList._get_inverse_roots_from_override", coq_name="eigcorr_get_inverse_roots", **ROOTS),
     ]),
@@ -48,9 +73,16 @@ SPECS = {
                atoms=[("torch.numel(A)", "numel", "Z"), ("A.shape", "shape", "list Z"), ("is_diagonal", "is_diagonal", "bool"),
                       ("type(root_inv_config) is EigenConfig", "is_eigen", "bool"), ("type(root_inv_config) is CoupledNewtonConfig", "is_newton", "bool"),
                       ("type(root_inv_config) is CoupledHigherOrderConfig", "is_higher_order", "bool"), ("root.denominator", "denominator", "Z")],
-               actions={"return (A - torch.minimum(": 0, "X = _matrix_inverse_root_diagonal(": 1, "X, _, _ = _matrix_inverse_root_eigen(": 2,
-                        "X, _, termination_flag, _, _ = _matrix_inverse_root_newton(": 3,
-                        "X, _, termination_flag, _, _ = _matrix_inverse_root_higher_order(": 4}),
+               actions={"return (A - torch.minimum(": 0, "_matrix_inverse_root_diagonal": 1, "_matrix_inverse_root_eigen": 2,
+                        "_matrix_inverse_root_newton": 3, "_matrix_inverse_root_higher_order": 4}),
+    ]),
+    "C12": ("GenC12", "EquivC12.v", "", [
+        # matrix_eigenvectors: which path is taken / which exception is raised
+        Target("matrix_functions.py", "matrix_eigenvectors", mode="decision", coq_name="matrix_eigenvectors_path",
+               atoms=[("torch.numel(A)", "numel", "Z"), ("A.shape", "shape", "list Z"), ("is_diagonal", "is_diagonal", "bool"),
+                      ("type(eigenvector_computation_config) is EighEigenvectorConfig", "is_eigh", "bool"),
+                      ("type(eigenvector_computation_config) is QRConfig", "is_qr", "bool"), ("eigenvectors_estimate", "eigenvectors_estimate", "option Z")],
+               actions={"return torch.ones_like(A)": 0, "torch.eye": 1, "return matrix_eigenvalue_decomposition(": 2, "_compute_orthogonal_iterations": 3}),
     ]),
     "C13": ("GenC13", "EquivC13.v", "", [
         Target(PLIST, "BaseShampooPreconditionerList._raise_exception_if_failure_tolerance_exceeded", coq_name="raise_exception_if_failure_tolerance_exceeded",
@@ -73,6 +105,14 @@ SPECS = {
     "C04": ("GenC04", "EquivC04.v", "", [
         Target(UTILS, "compress_list", types={"Sequence[CompressListType]": "list Z", "tuple[CompressListType, ...]": "list Z"}),
         Target(UTILS, "generate_pairwise_indices"),
+        # the global gradient selector built by _merge_and_block_gradients (a slice of the function: the statements that split the
+        # gradient and collect its local blocks are left out; they do not feed the selector)
+        Target("distributed_shampoo/utils/shampoo_distributor.py", "DistributorInterface._merge_and_block_gradients", mode="prefix",
+               coq_name="global_grad_selector_of", stop_before="self._global_grad_selector = tuple(", returns=["global_grad_selector"], params=[],
+               atoms=[("self._get_params_or_grads(get_grad=True)", "grads", "list (option Z)"), ("self._global_merged_dims_list", "merged_dims_list", "list (list Z)"),
+                      ("self._global_num_blocks_per_param", "num_blocks_per_param", "list Z"), ("self._distributor_selector", "distributor_selector", "list bool")],
+               calls={"generate_pairwise_indices": "generate_pairwise_indices"},
+               drop=["blocks_within_grad = multi_dim_split(", "local_masked_blocked_grads.extend("]),
     ]),
     "C15": ("GenC15", "EquivC15.v", "", [
         Target("distributed_shampoo/utils/shampoo_fsdp_distributor.py", **{**SPLIT, "qualname": "FSDPDistributor._split_tensor_block_recovery"}, prefix="fsdp_"),
